@@ -733,6 +733,9 @@ func runACBody(t *testing.T, c acCase, st *drv.Stats, prop string, failp **drv.F
 					}
 				}
 			}
+			if os.Getenv("VERIF_AC_DEBUG") != "" {
+				fmt.Fprintf(os.Stderr, "AC_DEBUG snapshot node %d hw=%d peerHeld=%v\n", nd.id, r.hw, r.peerHeld)
+			}
 			return r
 		}
 		var trace []string
